@@ -300,7 +300,7 @@ def check_signed(net, code, se, comp, msg, armour_ok, rec, m, rng, light=False, 
                 if ok and v is not want:
                     rec.violation("msg.msg_hash.own_signature_rejected." + what if want else "msg.msg_hash.verifies_for_other_digest",
                                   dict(case, other_msg=oms[0], target=what, msg_hash=hz_), v, want)
-        if not light:
+        if not light and (se + len(msg)) % 3 == 1:
             rec.ev("verify(message=None, msg_hash=)")
             ok, v = call(rec, case, "verify_msg_hash", net.msg.verify, pub, sig, None, z)
             if ok and v is not True:
